@@ -25,6 +25,7 @@ type retCase struct {
 	Pos     int    `json:"pos"`                                     // number of silent handlers before it
 	Reflect bool   `json:"reflective"`                              // add an injected parameter so that the built-in fast path cannot apply
 	Custom  string `json:"custom,omitempty"`                        // "" | app | request | request-late : a custom ReturnHandler is registered there (late = after the silent handlers ran)
+	FailW   bool   `json:"underlying_write_fails,omitempty"`        // the client is gone: every Write on the underlying writer fails. Nothing of this request may reach a later one
 	PreRet  bool   `json:"silent_handlers_return_values,omitempty"` // the preceding silent handlers return "" / nil error / nil []byte
 	Method  string `json:"method,omitempty"`
 }
@@ -42,11 +43,12 @@ func init() {
 }
 
 type c14Named string
+type c14NamedBytes []byte // a named byte-slice type (like json.RawMessage): a byte slice by kind
 type c14Err struct{ msg string }
 
 func (e *c14Err) Error() string { return e.msg }
 
-var retShapes = []string{"string", "bytes", "error", "int,string", "int,bytes", "int,error", "string,error", "bytes,error", "*string", "named", "iface", "*bytes"}
+var retShapes = []string{"string", "bytes", "error", "int,string", "int,bytes", "int,error", "string,error", "bytes,error", "*string", "named", "iface", "*bytes", "namedbytes", "int,namedbytes"}
 
 var (
 	tString = reflect.TypeOf("")
@@ -56,6 +58,7 @@ var (
 	tPStr   = reflect.TypeOf((*string)(nil))
 	tPBytes = reflect.TypeOf((*[]byte)(nil))
 	tNamed  = reflect.TypeOf(c14Named(""))
+	tNBytes = reflect.TypeOf(c14NamedBytes(nil))
 	tIface  = reflect.TypeOf((*interface{})(nil)).Elem()
 	tReq    = reflect.TypeOf((*http.Request)(nil))
 )
@@ -83,6 +86,11 @@ func (c *retCase) strish(t reflect.Type) reflect.Value {
 			return reflect.Zero(tBytes)
 		}
 		return reflect.ValueOf([]byte(c.Str))
+	case tNBytes:
+		if c.Nil {
+			return reflect.Zero(tNBytes)
+		}
+		return reflect.ValueOf(c14NamedBytes(c.Str))
 	case tPStr:
 		if c.Nil {
 			return reflect.Zero(tPStr)
@@ -112,6 +120,10 @@ func (c *retCase) outs() ([]reflect.Type, []reflect.Value) {
 		return []reflect.Type{tNamed}, []reflect.Value{c.strish(tNamed)}
 	case "bytes":
 		return []reflect.Type{tBytes}, []reflect.Value{c.strish(tBytes)}
+	case "namedbytes":
+		return []reflect.Type{tNBytes}, []reflect.Value{c.strish(tNBytes)}
+	case "int,namedbytes":
+		return []reflect.Type{tInt, tNBytes}, []reflect.Value{reflect.ValueOf(c.Int), c.strish(tNBytes)}
 	case "*string":
 		return []reflect.Type{tPStr}, []reflect.Value{c.strish(tPStr)}
 	case "*bytes":
@@ -148,14 +160,14 @@ func retTable(c *retCase) (int, string, bool) {
 		return 200, body, true
 	}
 	switch c.Shape {
-	case "string", "named", "bytes", "*string", "*bytes", "iface":
+	case "string", "named", "bytes", "*string", "*bytes", "iface", "namedbytes":
 		return one()
 	case "error":
 		if c.Err == "" {
 			return 0, "", false
 		}
 		return 500, string(c.ErrMsg), true
-	case "int,string", "int,bytes":
+	case "int,string", "int,bytes", "int,namedbytes":
 		return c.Int, body, true
 	case "int,error":
 		if c.Err == "" {
@@ -174,7 +186,7 @@ func retTable(c *retCase) (int, string, bool) {
 // isNil: the Nil flag only means something for shapes with a nil-able string-ish value.
 func (c *retCase) isNil() bool {
 	switch c.Shape {
-	case "bytes", "*string", "*bytes", "iface", "int,bytes", "bytes,error":
+	case "bytes", "*string", "*bytes", "iface", "int,bytes", "bytes,error", "namedbytes", "int,namedbytes":
 		return c.Nil
 	}
 	return false
@@ -186,7 +198,7 @@ func (c *retCase) unjudged() bool {
 		return false
 	}
 	switch c.Shape {
-	case "bytes", "*string", "*bytes", "iface", "bytes,error":
+	case "bytes", "*string", "*bytes", "iface", "bytes,error", "namedbytes":
 		return c.Shape != "bytes,error" || c.Err == ""
 	}
 	return false
@@ -197,6 +209,7 @@ type retSpy struct {
 	status int
 	body   []byte
 	calls  int
+	failW  bool
 }
 
 func (s *retSpy) Header() http.Header { return s.h }
@@ -209,6 +222,9 @@ func (s *retSpy) WriteHeader(c int) {
 func (s *retSpy) Write(b []byte) (int, error) {
 	if s.status == 0 {
 		s.status = 200
+	}
+	if s.failW {
+		return 0, errors.New("injected: connection gone")
 	}
 	s.body = append(s.body, b...)
 	return len(b), nil
@@ -228,6 +244,7 @@ func genRetCase(rng *rand.Rand) *retCase {
 		c.ErrMsg = core.B([]string{"boom", "", "e: x", "\xff"}[rng.Intn(4)])
 	}
 	c.Method = []string{"GET", "GET", "POST", "HEAD", "HEAD"}[rng.Intn(5)]
+	c.FailW = rng.Intn(25) == 0
 	if rng.Intn(8) == 0 {
 		c.Custom = []string{"app", "request", "request-late"}[rng.Intn(3)]
 	}
@@ -294,7 +311,7 @@ func judgeRet(w *core.W, c *retCase) {
 		meth = "GET"
 	}
 	f.Route(meth, "/r", hs)
-	spy := &retSpy{h: http.Header{}}
+	spy := &retSpy{h: http.Header{}, failW: c.FailW}
 	var pan interface{}
 	func() {
 		defer func() { pan = recover() }()
@@ -363,6 +380,9 @@ func retVerdict(c *retCase, pan interface{}, ran, pre, status int, body string, 
 		return ""
 	}
 	ws, wb, wrote := retTable(c)
+	if c.FailW {
+		wb = "" // nothing can be delivered; the status line still is what the table says
+	}
 	if c.Method == "HEAD" {
 		wb = "" // the status is committed as the table says, body bytes are not forwarded for HEAD (C13)
 	}
